@@ -8,10 +8,16 @@
                                              depth first, pruned by the wanted logs) for one that produces exactly the same per-actor logs:
                                              real behaviours must be behaviours of the model (trace inclusion)
 
+  tools/conformance_thespian.py record-convention [n]
+                                             the same for the convention scenario (conformance/convactors.py): a leader and two member
+                                             actor systems on loopback ports 1900-1902; joins before / after registration, creation with
+                                             satisfiable / unsatisfiable requirements, members shutting down
+
 `check` needs no real Thespian run and is part of the engines' self-test (MANIFEST.setup_cmd); `record` is run by hand.
 """
 import json
 import os
+import shutil
 import sys
 
 HERE = os.path.dirname(os.path.dirname(os.path.abspath(__file__)))
@@ -137,8 +143,176 @@ def record(n):
     print(f"{len(seen)} distinct real traces recorded in {TRACES}")
 
 
+# ------------------------------------------------------------------------------------------------ convention of several actor systems
+CONV_TRACES = os.path.join(HERE, "conformance", "thespian_convention_traces.json")
+MEMBER = """
+import sys, time
+sys.path.insert(0, %r)
+from thespian.actors import ActorSystem
+port, ip, life = int(sys.argv[1]), sys.argv[2], float(sys.argv[3])
+asys = ActorSystem("multiprocTCPBase", capabilities={"Admin Port": port, "Convention Address.IPv4": ("127.0.0.1", 1900), "ip": ip, "coordinator": False},
+                   logDefs={"version": 1, "loggers": {"": {"level": "CRITICAL"}}})
+print("up", flush=True)
+sys.stdin.readline()
+asys.shutdown()
+print("down", flush=True)
+"""
+
+
+def run_real_convention():
+    """leader system (port 1900) + two member systems in sub-processes; the script below is mirrored step by step in run_sim_convention"""
+    import subprocess
+    import tempfile
+    import time
+
+    from thespian.actors import ActorSystem
+
+    import convactors
+
+    mp = os.path.join(tempfile.mkdtemp(prefix="verif-conf-"), "member.py")
+    open(mp, "w").write(MEMBER % os.path.join(HERE, "conformance"))
+
+    def member(port, ip):
+        p = subprocess.Popen([sys.executable, mp, str(port), ip, "0"], stdin=subprocess.PIPE, stdout=subprocess.PIPE, text=True)
+        assert p.stdout.readline().strip() == "up"
+        time.sleep(2.0)
+        return p
+
+    def leave(p):
+        p.stdin.write("\n")
+        p.stdin.flush()
+        assert p.stdout.readline().strip() == "down"
+        p.wait()
+        time.sleep(3.0)
+
+    asys = ActorSystem("multiprocTCPBase", capabilities={"Admin Port": 1900, "ip": "127.0.0.1", "coordinator": True, "Convention Address.IPv4": ("127.0.0.1", 1900)},
+                       logDefs={"version": 1, "loggers": {"": {"level": "CRITICAL"}}})
+    try:
+        m1 = member(1901, "127.0.0.2")  # joins before the watcher registers
+        w = asys.createActor(convactors.Watcher)
+        assert asys.ask(w, "register", 10) == "registered"
+        time.sleep(1.0)
+        m2 = member(1902, "127.0.0.3")  # joins after the registration
+        for ip in ("127.0.0.2", "127.0.0.3", "127.0.0.99"):  # nobody has the last capability
+            asys.tell(w, ("create", ip))
+        time.sleep(2.0)
+        leave(m2)
+        asys.tell(w, ("ask-child", "127.0.0.3"))  # a message to an actor of the departed system
+        time.sleep(2.0)
+        asys.tell(w, ("create", "127.0.0.3"))  # a creation that only the departed system could satisfy
+        time.sleep(2.0)
+        leave(m1)
+        assert asys.ask(w, "unregister", 10) == "unregistered"
+        return norm(asys.ask(w, "dump", 10))
+    finally:
+        asys.shutdown()
+        shutil.rmtree(os.path.dirname(mp), ignore_errors=True)
+
+
+def run_sim_convention(chooser, want=None):
+    from mc import actorsim
+    from mc.vclock import CLOCK
+
+    import convactors
+
+    CLOCK.start(now=0.0)
+    sim = actorsim.ActorSim(chooser, horizon=100.0)
+    sim.strict_placement = True
+
+    def consistent(s, _receiver=None, _msg=None):
+        for rec in s.actors.values():
+            if type(rec.inst).__name__ == "Watcher":
+                log = norm(rec.inst.log)
+                if log[: len(want)] != want[: len(log)]:
+                    raise Inconsistent()
+
+    if want is not None:
+        sim.on_deliver = consistent
+
+    def answer():
+        sim.run()
+        return sim.outbox[-1][1] if sim.outbox else None
+
+    try:
+        sim.system_joins("127.0.0.2", {"ip": "127.0.0.2"})
+        w = sim.create_actor(convactors.Watcher, parent=sim.external)
+        sim.tell(w, "register")
+        answer()
+        sim.system_joins("127.0.0.3", {"ip": "127.0.0.3"})
+        sim.run()
+        for ip in ("127.0.0.2", "127.0.0.3", "127.0.0.99"):
+            sim.tell(w, ("create", ip))
+        sim.run()
+        sim.system_leaves("127.0.0.3")
+        sim.run()
+        sim.tell(w, ("ask-child", "127.0.0.3"))
+        sim.run()
+        sim.tell(w, ("create", "127.0.0.3"))
+        sim.run()
+        sim.system_leaves("127.0.0.2")
+        sim.run()
+        sim.tell(w, "unregister")
+        answer()
+        sim.tell(w, "dump")
+        return norm(answer())
+    finally:
+        sim.shutdown()
+
+
+def find_convention_schedule(want, max_exec=50000):
+    from mc import explore
+
+    stack = [()]
+    n = 0
+    while stack and n < max_exec:
+        prefix = stack.pop()
+        ch = explore.Chooser(prefix)
+        n += 1
+        try:
+            got = run_sim_convention(ch, want)
+        except Inconsistent:
+            got = None
+        if got == want:
+            return sum(1 for c in ch.choices if c), n, list(ch.choices)
+        kids = []
+        for i in range(len(prefix), len(ch.choices)):
+            for alt in range(1, ch.points[i][0]):
+                kids.append(tuple(ch.choices[:i]) + (alt,))
+        stack.extend(reversed(kids))
+    return None, n, None
+
+
+def record_convention(n):
+    seen = {}
+    for _ in range(n):
+        logs = run_real_convention()
+        k = json.dumps(logs, sort_keys=True)
+        e = seen.setdefault(k, {"logs": logs, "bases": ["multiprocTCPBase x3 systems"], "count": 0})
+        e["count"] += 1
+    json.dump({"scenario": "conformance/convactors.py", "traces": list(seen.values())}, open(CONV_TRACES, "w"), indent=1)
+    print(f"{len(seen)} distinct real convention traces recorded in {CONV_TRACES}")
+
+
+def check_convention(verbose=True):
+    from mc import vclock
+
+    vclock.install()
+    if not os.path.exists(CONV_TRACES):
+        return True
+    ok = True
+    for i, entry in enumerate(json.load(open(CONV_TRACES))["traces"]):
+        dev, n, _choices = find_convention_schedule(entry["logs"])
+        if dev is None:
+            ok = False
+            print(f"conformance: real convention trace #{i} is NOT a behaviour of the simulated transport ({n} schedules searched)")
+            print(json.dumps(entry["logs"]))
+        elif verbose:
+            print(f"conformance: real convention trace #{i} (seen {entry['count']}x) reproduced by the simulation with {dev} deviation(s) after {n} schedules")
+    return ok
+
+
 def selftest():
-    if not check(verbose=False):
+    if not check(verbose=False) or not check_convention(verbose=False):
         raise SystemExit("conformance with recorded Thespian traces FAILED")
 
 
@@ -146,5 +320,9 @@ if __name__ == "__main__":
     cmd = sys.argv[1] if len(sys.argv) > 1 else "check"
     if cmd == "record":
         record(int(sys.argv[2]) if len(sys.argv) > 2 else 5)
+    elif cmd == "record-convention":
+        record_convention(int(sys.argv[2]) if len(sys.argv) > 2 else 3)
     else:
-        sys.exit(0 if check() else 1)
+        a = check()
+        b = check_convention()
+        sys.exit(0 if a and b else 1)
